@@ -63,4 +63,6 @@ var benigns = []benign{
 	{"C19-b2", "C19", "yoda/execute.go", "	if len(preview) > 32 {", "	if 32 < len(preview) {", false, "flip a comparison", nil},
 	{"C20-b1", "C20", "grogu/signaller/signaller.go", "thresholdTime", "earliest", true, "rename a local", nil},
 	{"C20-b2", "C20", "grogu/signaller/signaller.go", "	if oldPrice.SignalPriceStatus != newPrice.Status {", "	if newPrice.Status != oldPrice.SignalPriceStatus {", false, "swap the operands of !=", nil},
+	{"C06-b4", "C06", "x/feeds/keeper/keeper_price.go", "checkHavePrice", "isFreshPrice", true, "rename an anchored private function (recovered by signature)", nil},
+	{"C08-b3", "C08", "x/tunnel/keeper/helper.go", "calculateDeviationBPS", "deviationInBPS", true, "rename an anchored private function (recovered by signature)", nil},
 }
